@@ -81,21 +81,32 @@ META("C01",
           "CBMC's pointer/bounds/overflow/shift obligations and with every CBOR_ASSERT as an obligation (-DDEBUG=1), on fully "
           "symbolic inputs: buffers are exactly-sized heap objects of symbolic length, so any read outside the caller's buffer "
           "fails a pointer obligation; loops are closed by loop contracts with decreases clauses (termination).",
-     note=COMMON_NOTE + "The main loop of cbor_load and the builder callbacks are not yet under contract in this revision: the "
-          "whole-input statement is covered for the streaming decoder and all post-decode operations per node, not for the "
-          "tree decoder's loop. Recursion terminates by structural induction (A1).",
-     trusted=[A1, A2], uncovered=["cbor_load main loop and the 24 builder callbacks: not yet under contract (only cbor_load's empty-input path)",
-                                  "cbor_describe: not under contract"],
+     note=COMMON_NOTE + "All 24 builder callbacks and every case of _cbor_builder_append are proved per transition (safety, "
+          "CBOR_ASSERTs, frames for the non-array cases). The two loops of cbor_load are NOT closed: goto-instrument runs out of "
+          "memory on any loop contract for cbor_load, and the bounded stand-in (3 heads) did not finish; only the empty-input "
+          "path of cbor_load is proved. The whole-input statement is therefore: every head-level step and every post-decode "
+          "operation per node is safe; their composition over an input is a meta-argument (A2).",
+     trusted=[A1, A2], uncovered=["cbor_load's main and clean-up loops (composition of the proved per-head steps): meta-argument A2",
+                                  "cbor_describe: not under contract", "cbor_copy of arrays / maps / chunked strings"],
      meta=["tree-level statements by induction over per-node steps (A1)"])
 
 META("C02",
-     text="Head level: the real cbor_stream_decode is proved to fire exactly the callback RFC 8949 section 3 prescribes for the "
-          "head at the start of the buffer with exactly its decoded arguments (all 256 initial bytes, all lengths) and to reject "
-          "exactly the reserved/unsupported initial bytes; item constructors and container operations the builder uses are proved "
-          "against exact contracts (fresh node, refcount 1, exact type/width/value; push/add append in storage order).",
-     note=COMMON_NOTE + "The builder callbacks / _cbor_builder_append push-down transitions and the cbor_load loop are NOT yet under "
-          "contract: the accept/reject language at tree level is therefore only decided up to heads in this revision.",
-     trusted=[A1, A2], uncovered=["push-down automaton transitions of the builder callbacks (planned, DESIGN 5 C02)", "cbor_load loop composition"],
+     text="Per transition of the RFC 8949 well-formedness push-down automaton: (1) head level - the real cbor_stream_decode fires "
+          "exactly the callback RFC 8949 section 3 prescribes with exactly the decoded arguments and rejects exactly the "
+          "reserved/unsupported initial bytes; (2) every builder callback on the real code, any stack depth: a leaf head "
+          "completes exactly one fresh item of the decoded type/width/value (checked as a precondition where the item is handed "
+          "over); an opening head pushes exactly one frame holding a fresh item of the decoded kind/flavour/size with the number "
+          "of members due (2n for maps), or completes an empty definite container at once; a definite string head adds a chunk "
+          "to an open chunked string of the SAME major type (fresh buffer, not the input buffer, same bytes) or completes an "
+          "item; break closes exactly an open indefinite item (a map only at even parity) else syntax error; (3) "
+          "_cbor_builder_append for every kind of open item: root when nothing is open, definite countdown and storage order for "
+          "arrays, key/value parity for maps, one child for tags, syntax error inside chunked strings, closing hands the "
+          "complete container upwards (recursion through the induction-hypothesis twin); (4) the stack limit (C19).",
+     note=COMMON_NOTE + "Composition over the sequence of heads (cbor_load's loop) is a meta-argument (A2): the loop itself is not "
+          "closed (tool limit, see C01). In the array/map cases of _cbor_builder_append the transition facts are asserted on the "
+          "real function but its frame contract is not enforced (memory). Leaf/opener callbacks are run with a tag or nothing "
+          "open (they never look at the open item).",
+     trusted=[A1, A2], uncovered=["cbor_load loop composition: meta-argument over the proved transitions"],
      meta=["composition over the sequence of heads (A2)"])
 
 META("C03",
@@ -118,7 +129,7 @@ META("C04",
           "exactly once (ghost hit counter at an arbitrary watched slot), non-last release frees nothing.",
      note=COMMON_NOTE + "The history-level invariant (refcount == number of references the rules say exist; nothing remains when all "
           "references are dropped) is induction over API calls with these per-operation steps (A2), not machine-checked. "
-          "cbor_decref on maps is a bounded stand-in (<= 3 pairs).",
+          "cbor_decref on maps is proved in lemma style (loop contract over the pair storage, harness assertions, frame not enforced).",
      trusted=[A1, A2], uncovered=["whole-history ownership graph: meta-argument"], meta=["history induction (A2)"])
 
 META("C05",
@@ -126,9 +137,11 @@ META("C05",
           "arbitrary memory beforehand); ERROR <=> reserved/unsupported initial byte with nothing consumed, and NEDATA <=> the buffer "
           "ends inside head or payload, are postconditions of the real cbor_stream_decode for all buffers; prefix determinism "
           "(a shorter buffer never turns FINISHED into ERROR) is a lemma over that contract.",
-     note=COMMON_NOTE + "The status->error-code mapping and position bookkeeping inside cbor_load's loop, and the flag-raising of the "
-          "builder callbacks, are not yet under contract in this revision.",
-     trusted=[A2], uncovered=["cbor_load loop: code mapping / position for non-empty inputs", "builder callbacks: syntax_error / creation_failed exactness"],
+     note=COMMON_NOTE + "Flag exactness is proved per callback (creation_failed only after a refused request, a refusing size guard or "
+          "at the nesting limit; syntax_error exactly at a break that closes nothing and at a non-chunk completing inside a "
+          "chunked string; rejected items are released). The status->error-code mapping and position bookkeeping inside "
+          "cbor_load's loop are NOT machine-checked for non-empty inputs (loop not closed, see C01).",
+     trusted=[A2], uncovered=["cbor_load loop: code mapping / position for non-empty inputs (meta-argument over K' = C08 contract + callback transitions)"],
      meta=["composition over heads (A2)"])
 
 META("C06",
@@ -137,9 +150,11 @@ META("C06",
           "capacity (symbolic), stack push, cbor_copy of leaf kinds: failure through the documented channel, no safety obligation "
           "fails (no crash), arguments unchanged on failure (fields compared with their old values), and exact accounting of live "
           "blocks (ghost g_live) shows that everything allocated up to the failure was released.",
-     note=COMMON_NOTE + "cbor_load and the builder callbacks under allocation failure are not yet covered; cbor_copy of composite "
-          "kinds is covered for tags only so far. Composition over a whole tree is by the steps (A1).",
-     trusted=[A1], uncovered=["cbor_load / builder callbacks under allocation failure", "cbor_copy of arrays/maps/chunked strings", "cbor_serialize_alloc"],
+     note=COMMON_NOTE + "Also covered: every builder callback under allocation failure (refused leaf/opener/chunk: flag raised, nothing "
+          "left allocated, nothing changed), cbor_serialize_alloc for leaves and definite strings (NULL buffer, size 0). "
+          "cbor_copy of composite kinds is covered for tags only. Composition over a whole tree / input is by the steps (A1, A2).",
+     trusted=[A1, A2], uncovered=["cbor_load as a whole under allocation failure (loop not closed)", "cbor_copy of arrays/maps/chunked strings",
+                                  "cbor_serialize_alloc of composite items"],
      meta=[])
 
 META("C07",
@@ -150,8 +165,9 @@ META("C07",
           "attempted or a child size is not representable; cbor_serialized_size per node kind: exact total or 0.",
      note=COMMON_NOTE + "Agreement between cbor_serialize and cbor_serialized_size for composite nodes follows from both being proved "
           "equal to header + sum over the same children; the two sums are related by a meta-argument (same children, same order; "
-          "both proofs establish the order). cbor_serialize_alloc and the cbor_serialize dispatcher are not yet under contract.",
-     trusted=[A1], uncovered=["cbor_serialize_alloc", "machine-checked equality of the two child sums at arbitrary fan-out"],
+          "both proofs establish the order). The dispatcher cbor_serialize is proved per node kind; cbor_serialize_alloc is proved "
+          "(exact block, its CBOR_ASSERT(written == size) discharged) for leaves and definite strings.",
+     trusted=[A1], uncovered=["cbor_serialize_alloc of composite items", "machine-checked equality of the two child sums at arbitrary fan-out"],
      meta=["equality of the two folds over the same children"])
 
 META("C09",
@@ -184,8 +200,10 @@ META("C12",
           "append, else refuse with everything unchanged; indefinite ones grow exactly when full, to exactly max(1, 2*capacity), with "
           "exactly one realloc request of exactly that many elements and none otherwise; earlier elements survive a reallocation; "
           "size <= capacity; get/replace/set refuse out-of-range indices without touching memory.",
-     note=COMMON_NOTE + "Growth of maps is a bounded stand-in (capacity <= 4); 'logarithmically many reallocations' is arithmetic over the "
-          "proved doubling law (meta). Capacities are limited to 2^36 elements by the object model.",
+     note=COMMON_NOTE + "Arrays and chunk tables: contracts enforced (frames included). Map add key / add pair: the same specification is "
+          "asserted by the harness on the real functions (lemma style, thorough tier, 24 GB) because enforcing the frame over the "
+          "pair storage ran out of memory; _cbor_map_add_value is contract-enforced. cbor_new_definite_array's slot-initialisation "
+          "loop is a bounded stand-in (size <= 6). 'Logarithmically many reallocations' is arithmetic over the proved doubling law.",
      trusted=[A2], uncovered=["amortised reallocation count: arithmetic meta-argument"], meta=["history induction (A2)"])
 
 META("C13",
@@ -244,9 +262,11 @@ META("C19",
      text="_cbor_stack_push/pop/init proved with a SYMBOLIC limit L >= 1 (configuration.h generated with CBOR_MAX_STACK_SIZE = a "
           "nondeterministic value): size == L => refused before any allocator request, nothing changes; size < L => exactly one frame "
           "pushed or the allocator's refusal reported; size <= L preserved.",
-     note=COMMON_NOTE + "That each opener callback pushes exactly one frame and maps refusal to MEMERROR is not yet under contract (C02). "
-          "'Within native stack proportional to L' is not decidable by this technique (no notion of stack consumption).",
-     trusted=[A2], uncovered=["native stack consumption: not decidable here", "opener callbacks -> one push each: pending"], meta=[])
+     note=COMMON_NOTE + "Every opener callback (7) is proved to push exactly one frame or raise creation_failed leaving nothing behind, and "
+          "to raise it when the stack is at the limit (those proofs use the default L = 2048; the push itself is proved for "
+          "symbolic L). cbor_load's mapping of the flag to MEMERROR at the position just past the head is not machine-checked "
+          "(loop not closed). 'Within native stack proportional to L' is not decidable by this technique.",
+     trusted=[A2], uncovered=["native stack consumption: not decidable here", "flag -> MEMERROR mapping in cbor_load's loop"], meta=[])
 
 # ------------------------------------------------------------------------------------------------
 # L0 arithmetic (C20)
